@@ -44,6 +44,10 @@ func init() {
 			{Name: "xsurveyor-slow-respondent-and-the-two-queue-lengths", Mode: "enum", Reset: kit.ResetGlobals, Body: func() { c08.QueueLengths("xsurveyor", xsurveyor.NewSocket, []byte{0x80, 0, 0, 1}, 4) }, NeedCounters: []string{"slow-peer-given-all-queued"}},
 			{Name: fmt.Sprintf("respondent-answers-hist-D%d", d-1), Mode: "hist", Reset: kit.ResetGlobals, Body: func() { c05.RespondentHist(d - 1) }, NeedCounters: []string{"reply-routed"}},
 			{Name: fmt.Sprintf("xrespondent-answers-hist-D%d", d-1), Mode: "hist", Reset: kit.ResetGlobals, Body: func() { c05.XRespondentHist(d - 1) }, NeedCounters: []string{"raw-recv-header", "raw-reply-routed"}},
+			{Name: fmt.Sprintf("surveyor-membership-hist-D%d", d), Mode: "hist", Reset: kit.ResetGlobals, Body: func() { membership(false, d) },
+				NeedCounters: []string{"survey-after-a-respondent-was-replaced", "broadcast-complete"}},
+			{Name: fmt.Sprintf("xsurveyor-membership-hist-D%d", d), Mode: "hist", Reset: kit.ResetGlobals, Body: func() { membership(true, d) },
+				NeedCounters: []string{"survey-after-a-respondent-was-replaced", "broadcast-complete"}},
 			{Name: "xsurveyor-hist", Mode: "hist", Reset: kit.ResetGlobals, Body: func() { rawHist(4) }},
 		}
 	})
@@ -427,6 +431,105 @@ func histOpt(depth int, late bool) {
 			kit.Failf("recv-not-unblocked-by-close", "%s: Recv still blocked after socket Close", m.name)
 		}
 	}
+}
+
+// membership: a SURVEYOR (or raw SURVEYOR) with two respondents; events: a survey is sent, a
+// respondent leaves, a new one joins (up to five in all).  Every survey is given exactly once, with
+// one id, to every respondent connected at that moment - whoever came or went before - and to
+// nobody else; a response from any of them is delivered.
+func membership(raw bool, depth int) {
+	var s mangos.Socket
+	if raw {
+		s, _ = xsurveyor.NewSocket()
+	} else {
+		s, _ = surveyor.NewSocket()
+		_ = s.SetOption(mangos.OptionSurveyTime, time.Hour)
+	}
+	ep := vt.Get("svm")
+	if err := s.Listen("vt://svm"); err != nil {
+		kit.Failf("setup", "Listen: %s", kit.ErrName(err))
+	}
+	type member struct {
+		p    *vt.Pipe
+		seen int
+	}
+	var ms []*member
+	join := func() {
+		ms = append(ms, &member{p: ep.Connect()})
+		kit.Quiesce()
+	}
+	join()
+	join()
+	n := 0
+	changed := 0 // bit 0: somebody left since the last survey, bit 1: somebody joined
+	kit.Hist(depth, func() []kit.Event {
+		var evs []kit.Event
+		evs = append(evs, kit.Event{Name: "survey", Run: func() {
+			n++
+			body := fmt.Sprintf("survey-%d", n)
+			m := mangos.NewMessage(len(body))
+			m.Body = append(m.Body, body...)
+			if raw {
+				m.Header = append(m.Header, 0x80, 0, 0, byte(n))
+			}
+			sc := kit.Start("Send", func() (interface{}, error) { return nil, s.SendMsg(m) })
+			kit.Quiesce()
+			if !sc.Done() || sc.Err != nil {
+				kit.Failf("survey-send", "Send of a survey: done=%v %s", sc.Done(), kit.ErrName(sc.Err))
+			}
+			var id []byte
+			var responder *member
+			for i, mb := range ms {
+				l := mb.p.SentLog()
+				nw := l[mb.seen:]
+				mb.seen = len(l)
+				if !mb.p.Alive() {
+					continue
+				}
+				if len(nw) != 1 || len(nw[0].Data) != 4+len(body) || string(nw[0].Data[4:]) != body {
+					kit.Failf("broadcast-incomplete", "survey %d: respondent %d (of %d ever connected; connected now) was given %d message(s), want the survey once (respondents left / joined since the previous survey: %v / %v)", n, i, len(ms), len(nw), changed&1 != 0, changed&2 != 0)
+				}
+				if id != nil && string(id) != string(nw[0].Data[:4]) {
+					kit.Failf("survey-id-differs", "survey %d went out under the ids %x and %x", n, id, nw[0].Data[:4])
+				}
+				id = nw[0].Data[:4]
+				responder = mb
+			}
+			kit.Count("broadcast-complete")
+			if changed == 3 {
+				kit.Count("survey-after-a-respondent-was-replaced")
+			}
+			changed = 0
+			if responder != nil {
+				// the newest respondent answers: delivered
+				responder.p.Deliver(append(append([]byte{}, id...), "answer-"+body...))
+				rc := kit.Start("Recv", func() (interface{}, error) { return kit.Recv(s) })
+				kit.Quiesce()
+				if !rc.Done() || rc.Err != nil || string(rc.Val.([]byte)) != "answer-"+body {
+					kit.Failf("response-not-delivered", "survey %d: the response of a connected respondent: Recv done=%v %s %q", n, rc.Done(), kit.ErrName(rc.Err), rc.Val)
+				}
+			}
+		}})
+		alive := 0
+		for i, mb := range ms {
+			i, mb := i, mb
+			if mb.p.Alive() {
+				alive++
+				evs = append(evs, kit.Event{Name: fmt.Sprintf("leave:%d", i), Run: func() { mb.p.DropNow(); kit.Quiesce(); changed |= 1 }})
+			}
+		}
+		if len(ms) < 5 {
+			evs = append(evs, kit.Event{Name: "join", Run: func() { join(); changed |= 2 }})
+		}
+		return evs
+	}, func() {
+		for i, mb := range ms {
+			if l := mb.p.SentLog(); len(l) != mb.seen {
+				kit.Failf("broadcast-unexpected", "respondent %d was given %x without a survey having been sent", i, l[mb.seen].Data)
+			}
+		}
+	})
+	kit.Must("Close", func() { _ = s.Close() })
 }
 
 // schedExpiry: a response arrives just as the survey expires.
